@@ -306,7 +306,7 @@ fn check_store(d: &Digest, s: StoreIx) -> (Vec<Finding>, Vec<RunInfo>, St) {
         }
         if notify == Tri::Yes {
             for (sub, iv) in &sd.subs {
-                if !matches!(d.sub_kind(*sub), SubKind::Direct | SubKind::Selector { .. }) {
+                if !matches!(d.sub_kind(*sub), SubKind::Direct | SubKind::Selector { .. } | SubKind::SelectorObj { .. }) {
                     continue;
                 }
                 let required = iv.add_ret.map(|r| r < lb).unwrap_or(false) && iv.unsub_inv.map(|u| u > left_by).unwrap_or(true);
